@@ -1272,6 +1272,8 @@ func init() {
 type fakeFileInfo struct {
 	name string
 	dir  bool
+	link bool
+	size int64
 }
 
 // symRegexp: a *regexp.Regexp compiled from a symbolic pattern (opaque; matching is uninterpreted)
